@@ -182,9 +182,12 @@ class HistoryGen(object):
             elif choice < 0.40 and cur:
                 # a descendant (loop attempt)
                 ch = d.children()
-                desc, stack = [], list(ch.get(u, []))
+                desc, stack, seen = [], list(ch.get(u, [])), set()
                 while stack:
                     x = stack.pop()
+                    if x in seen:
+                        continue    # a cycle (only if the service is broken)
+                    seen.add(x)
                     desc.append(x)
                     stack.extend(ch.get(x, []))
                 if desc:
